@@ -375,6 +375,27 @@ func runC16(r *mc.Run) {
 				o.TdQuoteBodyOptions.AnyMrTd = append(make([][]byte, 0, 5), []byte{}, append(make([]byte, 0, 64), raw0[48+136:48+184]...), nil)
 				return o
 			}},
+			{"anymrtd-12-entries-unsorted", func() *validate.Options {
+				o := &validate.Options{}
+				for i := 0; i < 12; i++ {
+					e := world.Fill(fmt.Sprintf("c16-allowed-%d", (i*7)%12), 48)
+					if i == 9 {
+						e = append([]byte(nil), raw0[48+136:48+184]...)
+					}
+					o.TdQuoteBodyOptions.AnyMrTd = append(o.TdQuoteBodyOptions.AnyMrTd, e)
+				}
+				return o
+			}},
+			{"anymrtd-40-entries-descending+rtmrs-descending", func() *validate.Options {
+				o := &validate.Options{}
+				for i := 0; i < 40; i++ {
+					e := bytes.Repeat([]byte{byte(0xf0 - 3*i)}, 48)
+					o.TdQuoteBodyOptions.AnyMrTd = append(o.TdQuoteBodyOptions.AnyMrTd, e)
+				}
+				o.TdQuoteBodyOptions.AnyMrTd = append(o.TdQuoteBodyOptions.AnyMrTd, append([]byte(nil), raw0[48+136:48+184]...))
+				o.TdQuoteBodyOptions.Rtmrs = [][]byte{regs(0), regs(1), regs(2), regs(3)}
+				return o
+			}},
 			{"everything-empty-non-nil", func() *validate.Options {
 				o := &validate.Options{}
 				for _, f := range optFields {
